@@ -251,6 +251,11 @@ M = [
       old="        let expected = buffer.as_ref().len();\n        let decoded = serdect::array::deserialize_hex_or_bin(buffer.as_mut(), deserializer)?.len();\n        if decoded != expected {\n            return Err(serdect::serde::de::Error::invalid_length(\n                decoded,\n                &\"an encoding of the integer's full size\",\n            ));\n        }\n",
       new="        serdect::array::deserialize_hex_or_bin(buffer.as_mut(), deserializer)?;\n",
       expect="c16.declen|<uint::Uint<_> as serdect::serde::Deserialize<_>>::deserialize|0"),
+ # --- c06.onesided (seed C06f)
+ dict(name="boxed_ct_lt_one_sided_loop", prop="C06", file="src/uint/boxed/cmp.rs",
+      old="        let (_, borrow) = self.sbb(other, Limb::ZERO);\n        ConstChoice::from_word_mask(borrow.0).into()",
+      new="        let mut borrow = Limb::ZERO;\n        for (i, a) in self.limbs.iter().enumerate() {\n            let b = other.limbs.get(i).unwrap_or(&Limb::ZERO);\n            (_, borrow) = a.sbb(*b, borrow);\n        }\n        ConstChoice::from_word_mask(borrow.0).into()",
+      expect="c06.onesided|uint::boxed::cmp::<impl subtle::ConstantTimeLess for uint::boxed::BoxedUint>::ct_lt"),
 ]
 
 def main():
